@@ -95,7 +95,8 @@ def rand_programs(rng):
         if rng.random() < 0.4:
             progs.append(["mset"])
         return "monitor", 0, progs
-    return "thread", 0, [["start", "join"] for _ in range(rng.randint(1, 3))]
+    return "thread", 0, [rng.choice([["start", "join"], ["mstart", "join"], ["mstart", "restart", "join"], ["start", "restart", "join"],
+                                     ["mstart", "restart", "restart", "join"]]) for _ in range(rng.randint(1, 3))]
 
 
 def key_of(args, res):
@@ -179,7 +180,9 @@ def run(ctx):
                 # (a set lost to a later waiter's arrival leaves the setter waiting for a release that never comes)
                 ("monitor", 0, [["mlock", "mwaite", "munlock"], ["mlock", "mwaite", "munlock"], ["msetafter1", "msetafter2"]]),
                 ("monitor", 0, [["mlock", "mwaite", "munlock"], ["mlock", "mwaite", "munlock"], ["mlock", "mwaite", "munlock"], ["msetafter1", "msetafter2", "msetafter3"]]),
-                ("monitor", 0, [["mlock", "mwaite", "munlock"], ["mlock", "mwaite", "munlock"], ["msetafter1"], ["msetafter2"]])]
+                ("monitor", 0, [["mlock", "mwaite", "munlock"], ["mlock", "mwaite", "munlock"], ["msetafter1"], ["msetafter2"]]),
+                ("thread", 0, [["mstart", "restart", "join"], ["start", "restart", "join"]]),
+                ("thread", 0, [["mstart", "restart", "restart", "join"]])]
     runs = []
     for j, (prim, init, progs) in enumerate(DIRECTED):
         for i in range(12 if ctx.quick else 150):
